@@ -105,6 +105,7 @@ fn mutspec_str(m: &MutSpec) -> String {
     let extra = match m.extra {
         MutExtra::None => "none".to_string(),
         MutExtra::Reserve(n) => format!("reserve{n}"),
+        MutExtra::ReserveExact(n) => format!("rsvexact{n}"),
         MutExtra::ExtendUnder(n) => format!("extendunder{n}"),
         MutExtra::ExtendOver(n) => format!("extendover{n}"),
     };
@@ -138,6 +139,8 @@ fn mutspec_parse(s: &str) -> Option<MutSpec> {
     };
     let extra = if p[4] == "none" {
         MutExtra::None
+    } else if let Some(n) = p[4].strip_prefix("rsvexact") {
+        MutExtra::ReserveExact(n.parse().ok()?)
     } else if let Some(n) = p[4].strip_prefix("reserve") {
         MutExtra::Reserve(n.parse().ok()?)
     } else if let Some(n) = p[4].strip_prefix("extendunder") {
